@@ -663,6 +663,18 @@ func c05Action_(a []string) (*c05GoNames, string) {
 	return g, a[0]
 }
 
+// the verb sent to the driver of the generated package: "call", or "callheld" — the same call through a proxy whose
+// client lets another caller make a whole call of the same method, with other arguments, after the arguments of this
+// one have been encoded and before its message is written
+var c05CallVerb = "call"
+
+// gen.callheld: as gen.call, with another caller's call in the middle
+func execGenCallHeld(a []string) string {
+	c05CallVerb = "callheld"
+	defer func() { c05CallVerb = "call" }()
+	return execGenCall(a)
+}
+
 // gen.call <itf> <action> <retsighex|-> <paramssighex> [ret tokens] params-tuple tokens
 func execGenCall(a []string) string {
 	g, itf := c05Action_(a)
@@ -680,7 +692,7 @@ func execGenCall(a []string) string {
 	}
 	pt := parseSigT(string(unhx(a[3])))
 	pv, _ := parseTValTokens(toks)
-	line := fmt.Sprintf("call %s %s %s %s %s", itf, g.proxy, itf+"."+g.impl, retPart, c05Pairs(pt.elems, pv.elems))
+	line := fmt.Sprintf("%s %s %s %s %s %s", c05CallVerb, itf, g.proxy, itf+"."+g.impl, retPart, c05Pairs(pt.elems, pv.elems))
 	res := c05Cur.ask(strings.TrimSpace(line))
 	f := strings.Fields(res)
 	if len(f) >= 2 && f[0] == "got" {
@@ -900,6 +912,7 @@ func init() {
 	executors["gen.pkgx"] = execGenPkgx
 	executors["gen.pkg"] = execGenPkg
 	executors["gen.call"] = execGenCall
+	executors["gen.callheld"] = execGenCallHeld
 	executors["gen.signal"] = execGenSignal
 	executors["gen.burst"] = execGenBurst
 	executors["gen.prop"] = execGenProp
@@ -1134,6 +1147,14 @@ func runC05(r *Rand, tier string, o *Out) {
 							o.Fail("a call through the generated proxy does not come back: "+c05FailClass(res), fmt.Sprintf("%s.%s%s: %s", itf.name, a.name, pt.String(), res))
 						} else if res != want {
 							o.Fail("a call through the generated proxy changes a value: "+c05Shape(pt), fmt.Sprintf("%s.%s%s: %s (want %s)", itf.name, a.name, pt.String(), res, want))
+						}
+						if k == 0 && len(pts) > 0 {
+							// the same call while another caller calls the same method in the middle of it
+							res := o.Do("P", "gen.callheld"+strings.TrimPrefix(op, "gen.call"), true)
+							o.Count("call:another-caller-in-the-middle")
+							if strings.HasPrefix(res, "got ") && res != want {
+								o.Fail("a call through the generated proxy carries the arguments of another caller", fmt.Sprintf("%s.%s%s: %s (want %s)", itf.name, a.name, pt.String(), res, want))
+							}
 						}
 					case "sig":
 						et := pts[0]
